@@ -23,6 +23,7 @@ use radix_engine::updates::BabylonSettings;
 use radix_engine::system::bootstrap::*;
 use radix_engine_interface::blueprints::consensus_manager::*;
 use radix_engine_interface::prelude::*;
+use radix_substate_store_interface::db_key_mapper::DatabaseKeyMapper;
 use radix_transactions::prelude::*;
 use scrypto_test::prelude::{DefaultLedgerSimulator, LedgerSimulatorBuilder};
 use serde_json::json;
@@ -249,7 +250,10 @@ fn prefix_and_reg(s: &VState) -> String {
 #[derive(Clone, Debug)]
 enum Plan {
     Stake(usize, BigInt),
+    /// stake so that the stake vault holds exactly this many attos afterwards
+    StakeTo(usize, BigInt),
     UnstakeAll(usize),
+    UnstakeUnits(usize, BigInt),
     Claim(usize),
     Epoch(u64, Vec<u8>, u8), // rounds, gap leaders, current leader (indices into the active set)
 }
@@ -264,6 +268,7 @@ struct Runner {
     had_roundtrip: bool,
     step: usize,
     dead: bool,
+    scripted: bool,
 }
 
 impl Runner {
@@ -278,6 +283,7 @@ impl Runner {
             had_roundtrip: false,
             step: 0,
             dead: false,
+            scripted: false,
         };
         let vs: Vec<VState> = (0..NV).map(|i| r.w.vstate(i)).collect();
         let (proposer, vault) = r.w.rewards_state();
@@ -293,6 +299,28 @@ impl Runner {
     }
     fn cnt(&mut self, k: &str) {
         *self.counts.entry(k.to_string()).or_insert(0) += 1;
+        if self.scripted {
+            // the deterministic boundary family has its own counters (floors are put on these)
+            *self.counts.entry(format!("bnd_{}", k)).or_insert(0) += 1;
+        }
+    }
+    /// classes of the index prefix of a stake: 100k-XRD bucket boundaries and u16 saturation
+    fn classify_stake(&mut self, v: &BigInt) {
+        let bucket = BigInt::from(10u64).pow(23);
+        if v.is_positive() && (v % &bucket).is_zero() {
+            self.cnt("stake_exact_multiple_of_100k");
+        }
+        if ((v + BigInt::from(1u32)) % &bucket).is_zero() {
+            self.cnt("stake_one_atto_below_multiple_of_100k");
+        }
+        let q = v / &bucket;
+        if q == BigInt::from(65535u32) {
+            self.cnt("stake_bucket_exactly_u16_max");
+        } else if q > BigInt::from(65535u32) {
+            self.cnt("stake_bucket_saturated");
+        } else if q == BigInt::from(65534u32) {
+            self.cnt("stake_bucket_u16_max_minus_1");
+        }
     }
     fn fail(&mut self, what: String) {
         let step = self.step;
@@ -331,6 +359,13 @@ impl Runner {
         if before.v.is_positive() && &units * &before.v > &x * &before.u {
             self.fail(format!("stake units {} exceed the proportional amount (x={}, V={}, U={})", units, x, before.v, before.u));
         }
+        if before.v.is_zero() && before.u.is_zero() {
+            self.cnt("stake_into_empty_vault_and_zero_supply");
+        }
+        if !after.registered {
+            self.cnt("stake_on_unregistered_validator");
+        }
+        self.classify_stake(&after.v);
         if x.is_positive() && units.is_zero() {
             // the staker's XRD is in the vault but no unit was issued: recorded, see Props/C42.v
             self.cnt("stakes_of_positive_xrd_minting_zero_units");
@@ -376,6 +411,16 @@ impl Runner {
         if after.u.is_zero() && after.v.is_positive() {
             self.cnt("unstakes_leaving_dust_with_zero_unit_supply");
         }
+        if after.u.is_zero() && after.v.is_zero() {
+            self.cnt("unstake_of_all_units_exact");
+        }
+        if units == BigInt::from(1u32) {
+            self.cnt("unstake_of_one_atto_unit");
+        }
+        if claim.is_zero() {
+            self.cnt("unstake_with_zero_claim");
+        }
+        self.classify_stake(&after.v);
         if let Some(x) = from_stake {
             self.cnt("stake_unstake_round_trips");
             self.had_roundtrip = true;
@@ -416,6 +461,13 @@ impl Runner {
         let after = self.w.vstate(vi);
         let got = big(self.w.ledger.get_component_balance(staker, XRD)) - xrd0;
         self.cnt(if ok { "claim_ok" } else { "claim_refused_before_epoch" });
+        if cur == ce {
+            self.cnt("claim_exactly_at_claim_epoch");
+        } else if cur + 1 == ce {
+            self.cnt("claim_one_epoch_early");
+        } else if cur > ce {
+            self.cnt("claim_after_claim_epoch");
+        }
         if ok != (cur >= ce) {
             self.fail(format!("claim at epoch {} of a claim for epoch {}: success = {}", cur, ce, ok));
         }
@@ -557,8 +609,57 @@ impl Runner {
         }
         if (0..NV).filter(|i| afters[*i].registered && afters[*i].v.is_positive()).count() > MAXV as usize {
             cnts.push("epochs_with_validator_cut_off");
+            let mut sts: Vec<BigInt> = (0..NV).filter(|i| afters[*i].registered && afters[*i].v.is_positive()).map(|i| afters[i].v.clone()).collect();
+            sts.sort();
+            sts.reverse();
+            if sts[MAXV as usize - 1] == sts[MAXV as usize] {
+                cnts.push("cutoff_between_equal_stakes");
+            }
         }
-        let mut scan: Vec<(Vec<u8>, Vec<u8>, usize)> = (0..NV).filter_map(|i| afters[i].sort_key.clone().map(|(p, a)| (p, a, i))).collect();
+        if next_list.windows(2).any(|p| p[0].1 == p[1].1) {
+            cnts.push("next_set_with_equal_stakes");
+        }
+        let d18 = BigInt::from(10u64).pow(18);
+        for (made, missed) in stats.values() {
+            let total = made + missed;
+            let rel = if total == 0 { d18.clone() } else { BigInt::from(*made) * &d18 * &d18 / (BigInt::from(total) * &d18) };
+            cnts.push(if total == 0 {
+                "emis_validator_without_any_proposal"
+            } else if *made == 0 {
+                "emis_validator_missed_all_proposals"
+            } else if *missed == 0 {
+                "emis_validator_perfect"
+            } else {
+                "emis_validator_partly_reliable"
+            });
+            cnts.push(if rel == w.minrel {
+                "emis_reliability_exactly_at_minimum"
+            } else if rel < w.minrel {
+                "emis_reliability_below_minimum"
+            } else {
+                "emis_reliability_above_minimum"
+            });
+        }
+        for (i, e) in emis.iter() {
+            if e.is_zero() {
+                cnts.push("emis_zero_emission_applied");
+            }
+            let ff = &befores[*i].ff;
+            cnts.push(if ff.is_zero() { "emis_fee_factor_zero" } else if *ff == d18 { "emis_fee_factor_one" } else { "emis_fee_factor_fraction" });
+        }
+        // index-scan order = order of the database sort keys: the u16 prefix, then the HASH-prefixed key bytes
+        // (SpreadPrefixKeyMapper), so validators in the same 100k bucket come in hash order, not address order
+        let mut scan: Vec<(Vec<u8>, Vec<u8>, usize)> = (0..NV)
+            .filter_map(|i| {
+                afters[i].sort_key.clone().map(|(p, a)| {
+                    let db = radix_substate_store_interface::db_key_mapper::SpreadPrefixKeyMapper::to_db_sort_key(&SubstateKey::Sorted((
+                        [p[0], p[1]],
+                        a.clone(),
+                    )));
+                    (db.0, a, i)
+                })
+            })
+            .collect();
         scan.sort();
         let active_s = coq_list(active.iter().map(|(a, st)| {
             let vi = idx_of(a.as_node_id()).unwrap();
@@ -656,29 +757,65 @@ fn finish(index: usize, r: Runner) -> CaseResult {
     }
 }
 
-/// Scripted history replayed on every run: validator 0 (fee factor 0, all units held by the
-/// staker) receives an emission, so stake vault / unit supply is not representable with 18 digits;
-/// the staker unstakes all units (dust stays in the vault, supply 0), then stakes 5 XRD and gets
-/// zero stake units; finally the claim is paid after one more epoch.
-fn scripted_zero_supply(index: usize) -> CaseResult {
-    let w = World::build(
-        vec![dec!(13), dec!(7), dec!(11), dec!(3)],
-        vec![Decimal::ZERO, Decimal::ONE, Decimal::ONE, Decimal::ONE],
-        vec![true; NV],
-        Decimal::ONE,
-        Decimal::ONE,
-    );
+type Script = (&'static str, Vec<Decimal>, Vec<Decimal>, Vec<bool>, Decimal, Decimal, Vec<Plan>);
+
+/// The deterministic boundary family (identical for every seed).
+fn boundary_scripts() -> Vec<Script> {
+    let xrd = |k: u64| BigInt::from(k) * BigInt::from(10u64).pow(18);
+    let one = Decimal::ONE;
+    let zero = Decimal::ZERO;
+    let bucket = BigInt::from(10u64).pow(23); // 100 000 XRD in attos
+    vec![
+        // validator 0 (fee factor 0, all units held by the staker) receives an emission, so vault / supply is not
+        // representable with 18 digits; all units are unstaked (dust stays, supply 0), a new stake mints zero units;
+        // the claim is refused one epoch early and paid exactly at its epoch
+        ("zero_supply_dust", vec![dec!(13), dec!(7), dec!(11), dec!(3)], vec![zero, one, one, one], vec![true; NV], one, one, vec![
+            Plan::Epoch(1, vec![], 0), Plan::Stake(0, xrd(1)), Plan::UnstakeAll(0), Plan::Stake(0, xrd(5)), Plan::Claim(0),
+            Plan::Epoch(1, vec![], 0), Plan::Claim(0), Plan::Stake(0, xrd(1)),
+        ]),
+        // exact unstake of all units (vault and supply both zero), stake into the empty validator, unstake of one atto
+        // unit, claims early / exactly at / after the claim epoch; minimum reliability 1 (perfect vs one miss)
+        ("empty_vault_and_claim_epochs", vec![dec!(13), dec!(7), dec!(11), dec!(3)], vec![one, one, one, one], vec![true; NV], one, one, vec![
+            Plan::UnstakeAll(1), Plan::Stake(1, xrd(2)), Plan::UnstakeUnits(1, BigInt::from(1u32)), Plan::Claim(1),
+            Plan::Epoch(2, vec![1], 0), Plan::Claim(1), Plan::UnstakeUnits(1, xrd(1)), Plan::Epoch(1, vec![], 2), Plan::Epoch(1, vec![], 0), Plan::Claim(1), Plan::Claim(1),
+            Plan::UnstakeUnits(2, BigInt::from(1u32)), Plan::Stake(2, BigInt::from(1u32)),
+        ]),
+        // minimum reliability 0.5: no proposal at all, perfect, exactly at the minimum (1 of 2), below (1 of 3, 0 of 2);
+        // fee factors 0.5 / 0 / 1 / 0.02
+        ("reliability_half", vec![dec!(40), dec!(30), dec!(20), dec!(10)], vec![dec!("0.5"), zero, one, dec!("0.02")], vec![true; NV], dec!(100), dec!("0.5"), vec![
+            Plan::Epoch(1, vec![], 0), Plan::Epoch(2, vec![1], 1), Plan::Epoch(3, vec![2, 2], 0), Plan::Epoch(3, vec![1, 1], 1),
+            Plan::Epoch(2, vec![0], 0), Plan::Stake(3, xrd(100)), Plan::Epoch(4, vec![0, 1, 2], 2),
+        ]),
+        // minimum reliability exactly 1/3 truncated to 18 digits (1 of 3 is exactly at it), and 0 (nothing is below it)
+        ("reliability_third", vec![dec!(40), dec!(30), dec!(20), dec!(10)], vec![one, dec!("0.5"), zero, one], vec![true; NV], dec!("2853.881278538812785388"), dec!("0.333333333333333333"), vec![
+            Plan::Epoch(3, vec![1, 1], 1), Plan::Epoch(4, vec![2, 2, 2], 2), Plan::Epoch(2, vec![0], 0),
+        ]),
+        ("reliability_zero", vec![dec!(40), dec!(30), dec!(20), dec!(10)], vec![one, dec!("0.5"), zero, one], vec![true; NV], dec!(7), zero, vec![
+            Plan::Epoch(3, vec![1, 1], 0), Plan::Epoch(2, vec![2], 2),
+        ]),
+        // index prefix: stake exactly at / one atto below a multiple of 100 000 XRD, bucket 65534 / 65535 / saturated
+        ("sort_prefix_boundaries", vec![dec!(100), dec!(50), dec!(30), dec!(20)], vec![one, one, one, one], vec![true; NV], one, one, vec![
+            Plan::StakeTo(0, &bucket * BigInt::from(2u32)), Plan::UnstakeUnits(0, BigInt::from(1u32)), Plan::StakeTo(1, &bucket - BigInt::from(1u32)),
+            Plan::Stake(1, BigInt::from(1u32)), Plan::StakeTo(2, &bucket * BigInt::from(65535u32) - BigInt::from(1u32)), Plan::Stake(2, BigInt::from(1u32)),
+            Plan::StakeTo(3, &bucket * BigInt::from(65536u32)), Plan::Epoch(1, vec![], 0), Plan::UnstakeUnits(3, xrd(1)), Plan::Epoch(1, vec![], 1),
+        ]),
+        // four equal stakes, three seats: the cut-off falls between equal stakes; later equal stakes inside the set
+        ("equal_stakes_cutoff", vec![dec!(10), dec!(10), dec!(10), dec!(10)], vec![one, one, one, one], vec![true; NV], one, one, vec![
+            Plan::Epoch(4, vec![0, 1, 2], 0), Plan::Epoch(1, vec![], 0), Plan::Stake(3, xrd(5)), Plan::Epoch(1, vec![], 0), Plan::Epoch(1, vec![], 1),
+        ]),
+        // an unregistered validator: stake / unstake keep it out of the index and of the set
+        ("unregistered_validator", vec![dec!(10), dec!(20), dec!(30), dec!(400)], vec![one, one, one, dec!("0.5")], vec![true, true, true, false], one, one, vec![
+            Plan::Stake(3, xrd(5)), Plan::UnstakeUnits(3, xrd(1)), Plan::Epoch(1, vec![], 0), Plan::Epoch(1, vec![], 0), Plan::Claim(3),
+        ]),
+    ]
+}
+
+fn run_script(index: usize, sc: Script) -> CaseResult {
+    let (name, stakes, ffs, regs, emission, minrel, plans) = sc;
+    let w = World::build(stakes, ffs, regs, emission, minrel);
     let mut r = Runner::new(w);
-    let plans = vec![
-        Plan::Epoch(1, vec![], 0),
-        Plan::Stake(0, BigInt::from(10u64).pow(18)),
-        Plan::UnstakeAll(0),
-        Plan::Stake(0, BigInt::from(5u32) * BigInt::from(10u64).pow(18)),
-        Plan::Claim(0),
-        Plan::Epoch(1, vec![], 0),
-        Plan::Claim(0),
-        Plan::Stake(0, BigInt::from(1u32) * BigInt::from(10u64).pow(18)),
-    ];
+    r.scripted = true;
+    r.cnt(&format!("script_{}", name));
     for p in plans {
         if r.dead {
             break;
@@ -686,15 +823,24 @@ fn scripted_zero_supply(index: usize) -> CaseResult {
         r.step += 1;
         match p {
             Plan::Stake(vi, x) => r.stake(vi, x),
+            Plan::StakeTo(vi, target) => {
+                let v = r.w.vstate(vi).v;
+                if target > v {
+                    r.stake(vi, &target - &v)
+                }
+            }
             Plan::UnstakeAll(vi) => {
                 let have = big(r.w.ledger.get_component_balance(r.w.staker, r.w.unit_resource(vi)));
                 r.unstake(vi, have, None)
             }
+            Plan::UnstakeUnits(vi, u) => r.unstake(vi, u, None),
             Plan::Claim(vi) => r.claim(vi, 0),
             Plan::Epoch(rounds, gaps, leader) => r.epoch(rounds, gaps, leader),
         }
     }
-    r.cnt("scripted_zero_supply_histories");
+    if name == "zero_supply_dust" {
+        r.cnt("scripted_zero_supply_histories");
+    }
     finish(index, r)
 }
 
@@ -736,7 +882,10 @@ fn main() {
                         i += threads;
                     }
                     if t == 0 {
-                        out.push(scripted_zero_supply(cases));
+                        // deterministic boundary family, identical for every seed
+                        for (k, sc) in boundary_scripts().into_iter().enumerate() {
+                            out.push(run_script(cases + k, sc));
+                        }
                     }
                     out
                 })
@@ -766,6 +915,21 @@ fn main() {
     report.floor("stake_unstake_round_trips", c / 4);
     report.floor("claim_ok", c / 16);
     report.floor("scripted_zero_supply_histories", 1);
+    for name in boundary_scripts().iter().map(|x| x.0) {
+        report.floor(&format!("bnd_script_{}", name), 1);
+    }
+    for k in [
+        "stake_into_empty_vault_and_zero_supply", "stakes_into_vault_with_dust_but_zero_unit_supply", "stake_on_unregistered_validator",
+        "unstakes_leaving_dust_with_zero_unit_supply", "unstake_of_all_units_exact", "unstake_of_one_atto_unit",
+        "claim_exactly_at_claim_epoch", "claim_one_epoch_early", "claim_after_claim_epoch", "claim_ok", "claim_refused_before_epoch",
+        "stake_exact_multiple_of_100k", "stake_one_atto_below_multiple_of_100k", "stake_bucket_exactly_u16_max", "stake_bucket_saturated",
+        "stake_bucket_u16_max_minus_1", "cutoff_between_equal_stakes", "next_set_with_equal_stakes", "epochs_with_validator_cut_off",
+        "emis_validator_without_any_proposal", "emis_validator_missed_all_proposals", "emis_validator_perfect", "emis_validator_partly_reliable",
+        "emis_reliability_exactly_at_minimum", "emis_reliability_below_minimum", "emis_reliability_above_minimum", "emis_zero_emission_applied",
+        "emis_fee_factor_zero", "emis_fee_factor_one", "emis_fee_factor_fraction", "epochs_with_rewards", "epochs_with_emission",
+    ] {
+        report.floor(&format!("bnd_{}", k), 1);
+    }
     cw.write(&args.out, args.shards).unwrap();
     report.write(&args.out).unwrap();
 }
